@@ -159,6 +159,11 @@ class Gen:
             self.kinds.append(k); self.main.append(f"op init {k}")
         if heartbeat:
             self.main.append(f"op start h0 {r.range(0, 8)} {r.range(1, 9)}")
+        if self.bias == "C03":
+            wk = r.choice(WATCHERS)
+            for _ in range(r.range(2, 3)):
+                self.kinds.append(wk); self.main.append(f"op init {wk}")
+                self.main.append(f"op start h{len(self.kinds) - 1} 0 0")
         for _ in range(r.range(1, 3 + 2 * self.size)):
             self.main.append("op " + self.rand_op(False))
         # callback table
@@ -175,6 +180,13 @@ class Gen:
             key, i, occ = r.choice(keys)
             own = i if key == "h" else None
             ops = [self.rand_op(True, own) for _ in range(r.range(1, 3))]
+            if self.bias == "C03" and key == "h" and self.kinds[i] in WATCHERS and r.chance(2, 3):
+                # watcher cross-stop inside its own phase: stop / close / restart a sibling in the same list
+                # (the next one to be called, or one already called), and itself
+                sib = [j for j, k in enumerate(self.kinds) if k == self.kinds[i] and j != i]
+                if sib:
+                    j = r.choice(sib)
+                    ops.append(r.choice([f"stop h{j}", f"stop h{j}", f"close h{j}", f"stop h{j} ; start h{j} 0 0", f"stop h{i} ; start h{i} 0 0"]))
             if self.bias == "C02" and r.chance(1, 2):
                 # close in the same phase / batch: this handle's callback closes itself and a sibling of its kind
                 sib = [j for j, k in enumerate(self.kinds) if key == "h" and k == self.kinds[i] and j != i]
@@ -486,6 +498,10 @@ class Mon:
                         self.bad("C02", "fs-event-watch-leak", f"after close_cb of fs_event h{m.group(1)} the loop's inotify descriptor holds "
                                  f"{m.group(2)} kernel watch(es); {want} expected (other active watchers: {others})", i)
                 i += 1; continue
+            if l.startswith("RUNAWAY-CALLBACKS"):
+                self.bad("C03", "runaway-phase", "a loop phase kept invoking callbacks far beyond the program's callback limit "
+                         "(uv_stop was requested long ago): the phase never terminates", i)
+                i += 1; continue
             if l.startswith("REENTRANT-CALLBACK"):
                 self.bad("C02", "close-reentrant", "uv_close invoked a callback re-entrantly", i)
                 i += 1; continue
@@ -774,7 +790,7 @@ def run_impl(ctx, exe, prog, tag):
     d = ctx.tmp / f"scr-{tag}"
     shutil.rmtree(d, ignore_errors=True)
     d.mkdir(parents=True)
-    rc, out, err = ctx.run(exe, args=[str(d)], text="\n".join(prog) + "\n", timeout=60,
+    rc, out, err = ctx.run(exe, args=[str(d)], text="\n".join(prog) + "\n", timeout=20,
                            env={"ASAN_OPTIONS": "detect_leaks=1:exitcode=99:abort_on_error=0", "UV_THREADPOOL_SIZE": "1"})
     shutil.rmtree(d, ignore_errors=True)
     return rc, out.splitlines(), err
